@@ -383,7 +383,9 @@ def basis_monitor(rep, rng, n):
     from FDApy.representation.basis import Basis
     from FDApy.representation.functional_data import BasisFunctionalData
     from FDApy.representation.argvals import DenseArgvals
-    t = np.linspace(0, 1, 41)
+    # the basis lives on ITS sampling points: a regular grid of [0,1], or unequally spaced points of another interval
+    t = np.linspace(0, 1, 41) if rng.uniform() < 0.34 else \
+        np.unique(np.concatenate([[2.0, 5.0], 2.0 + 3.0 * np.round(rng.uniform(0, 1, size=40) ** 2 * 256) / 256]))
     name = ["fourier", "bsplines", "legendre", "wiener"][int(rng.integers(4))]
     nf = int(rng.integers(4, 8))
     try:
